@@ -9,6 +9,8 @@ from ..lib import FAILED, EPS
 from ..runner import Sub
 
 ID = 'C18'
+TECHNIQUE = 'differential PBT against an exact integer brute-force hull + validity predicate; long curves; atheris in thorough'
+LEVEL_TEXT = 'Exploration: Exact domain: integer coordinates whose difference products stay below 2^53. Finds counter-examples (shrunk to a replay file); never proves absence.'
 RULE = ('Domain A (exact): integer coordinates < 2^25, optionally x 2^k, so the float orientation '
         'predicate equals the integer one.  chain: x-sorted curves n >= 2 (random small ranges, '
         'plateaus, collinear runs, convex, concave, zig-zag) -> lower/upper chain must EQUAL the '
